@@ -147,18 +147,25 @@ impl Compile {
         // change - including shortening or removing it - invalidates an existing destination.
         let prefix_crc =
             crc::Crc::<u32>::new(&crc::CRC_32_ISO_HDLC).checksum(self.prefix.as_bytes());
-        let source_header = format!(
-            "{}// CRC-32/ISO-HDLC of the prefix: {:08x}\n\n{}",
+        let header_lines = format!(
+            "{}// CRC-32/ISO-HDLC of the prefix: {:08x}\n",
             generate_source_header(&grammar),
             prefix_crc,
-            self.prefix
         );
+        let source_header = format!("{}\n{}", header_lines, self.prefix);
+        // rustfmt keeps the header lines but may rewrite the prefix text, so a formatted
+        // destination can only be recognised by its header lines.
+        let expected_header = if self.format {
+            &header_lines
+        } else {
+            &source_header
+        };
         if let Ok(f) = File::open(destination) {
             let mut existing_header = String::new();
-            if f.take(source_header.len() as u64)
+            if f.take(expected_header.len() as u64)
                 .read_to_string(&mut existing_header)
                 .is_ok()
-                && source_header == existing_header
+                && *expected_header == existing_header
             {
                 return Ok(());
             }
